@@ -47,13 +47,38 @@ Definition target (st : rstate) (e : ev) : nat :=
 
 Definition is_admin (e : ev) : bool := match actor e with None => true | Some _ => false end.
 
-Definition rstep (st : rstate) (e : rev) : option rstate :=
+(** [resolve]: which pool object a session waits on.
+    * [true] — the code as it is now ([Client::handle]: [pool = self.get_pool().await?;
+      pool.wait_paused().await; pool = self.get_pool().await?; ...]): at the start of every gate
+      passage ([CReg]) the session looks its pool up in the registry, so it waits on the cell of
+      the REGISTERED pool object; if the pool is [gone] the lookup fails ("No pool configured", the
+      session ends: the step is not enabled).
+    * [false] — the code before commit "a session whose user was removed and re-added by reloads
+      is held by PAUSE again": the session waits on the object it resolved earlier ([holds]),
+      refreshed only by [Refresh] after the wait.  Kept as a mutant ([rstep_gen false]).
+    A removed pool that a later RELOAD adds again gets a fresh flag and [Notify]: that is
+    [ReloadFresh] in a state where the pool is [gone] (there is no old registered object to share
+    with).  [ReloadFresh] while the pool is NOT gone is the pre-repair replacement of a pool. *)
+Definition reg_of (b : ev) : option client := match b with CReg c => Some c | _ => None end.
+
+Definition base_on (st : rstate) (b : ev) : option rstate :=
+  match step (cells st (target st b)) b with
+  | Some s' => Some (mkR (upd (cells st) (target st b) s') (registered st) (holds st) (fresh st) (gone st))
+  | None => None
+  end.
+
+Definition rstep_gen (resolve : bool) (st : rstate) (e : rev) : option rstate :=
   match e with
   | Base b =>
       if gone st && is_admin b then None          (* "No pool configured for database" *)
-      else match step (cells st (target st b)) b with
-           | Some s' => Some (mkR (upd (cells st) (target st b) s') (registered st) (holds st) (fresh st) (gone st))
-           | None => None
+      else match (if resolve then reg_of b else None) with
+           | Some c =>
+               if gone st then None               (* the session's lookup fails: it ends with an error *)
+               else match pcs (cells st (holds st c)) c with
+                    | Idle => base_on (mkR (cells st) (registered st) (upd (holds st) c (registered st)) (fresh st) (gone st)) b
+                    | _ => None
+                    end
+           | None => base_on st b
            end
   | ReloadShared => Some st
   | ReloadFresh => Some (mkR (cells st) (fresh st) (holds st) (S (fresh st)) false)
@@ -75,11 +100,15 @@ Definition rstep (st : rstate) (e : rev) : option rstate :=
            end
   end.
 
-Fixpoint rrun (st : rstate) (l : list rev) : option rstate :=
+Definition rstep : rstate -> rev -> option rstate := rstep_gen true.
+
+Fixpoint rrun_gen (resolve : bool) (st : rstate) (l : list rev) : option rstate :=
   match l with
   | [] => Some st
-  | e :: r => match rstep st e with Some st' => rrun st' r | None => None end
+  | e :: r => match rstep_gen resolve st e with Some st' => rrun_gen resolve st' r | None => None end
   end.
+
+Definition rrun : rstate -> list rev -> option rstate := rrun_gen true.
 
 (** The gate-level schedule hidden in a schedule with reloads. *)
 Fixpoint erase (l : list rev) : list ev :=
@@ -99,3 +128,23 @@ Definition rfinal (n : nat) (l : list rev) : list nat :=
                :: map (fun c => code_pc (view_pc (cells st (holds st c)) c)) (seq 0 n)
   | None => []
   end.
+
+(** Views after every step of a schedule with reloads, in the layout of [trace_codes]:
+    [paused of the registered pool (2 = gone); resume half done; pc codes of each client in the cell of
+    the pool object its session holds], [[]] from the first step that is not enabled (e.g. the lookup
+    of a session whose pool is gone). *)
+Definition rview (n : nat) (st : rstate) : list nat :=
+  (if gone st then 2 else if paused (cells st (registered st)) then 1 else 0)
+  :: (match apc (cells st (registered st)) with AIdle => 0 | AMidResume => 1 end)
+  :: map (fun c => code_pc (view_pc (cells st (holds st c)) c)) (seq 0 n).
+
+Fixpoint rtrace_from (n : nat) (st : rstate) (l : list rev) : list (list nat) :=
+  match l with
+  | [] => []
+  | e :: r => match rstep st e with
+              | Some st' => rview n st' :: rtrace_from n st' r
+              | None => [[]]
+              end
+  end.
+
+Definition rtrace_codes (n : nat) (l : list rev) : list (list nat) := rtrace_from n rinit l.
